@@ -233,3 +233,5 @@ extend("C17", "The MULTIPLICITY RULE is proved by engine V for vectors of every 
 extend("C02", "Engine V also proves FunctionEvaluator.eval's selection for ALL parameters: an int first index (negative included) with a scalar gives exactly that row's value, "
               "with a sequence one value per node in order, a unit-step slice (any start / stop, open ends) the corresponding rows of the SAME table in order (`__eval` by contract).")
 ENGINE_V += ["C02"]
+extend("C03", "The public queries valid / span / mult are proved on a scalar and on a sequence of ANY length (valid <=> every node in [umin, umax]; span / mult element-wise in order, "
+              "ValueError exactly when some node is outside), the recursion through map() resolved by the scalar contract of the same function.")
